@@ -45,7 +45,7 @@ package telemetry
 //@   at call child#1: assert $childvar == "1"
 //@   ensures $childvar != "" ==> $spawned == old($spawned) && $fsops == old($fsops)
 //@   ensures $spawned <= old($spawned)+1
-//@   modifies heap, telemetry.Default, "G:counter.rotating", "G:counter.defaultFile", $childvar, $spawned, $fsops, $minsize, $token, $created, $age, $nenv, $marked, $now, $weekend, $ledger, $lost, $modeDir, $refreshed, $touched, $invalidated
+//@   modifies heap, telemetry.Default, "G:counter.rotating", "G:counter.defaultFile", $childvar, $spawned, $fsops, $minsize, $token, $created, $age, $nenv, $marked, $now, $weekend, $ledger, $lost, $modeDir, $refreshed, $touched, $invalidated, $sawClear, $didClear
 
 //@ contract MaybeChild
 //@   requires $rd == 0 && $lk == 0
@@ -53,7 +53,7 @@ package telemetry
 //@   at call Getenv#1: after ghost $childvar = result
 //@   at call child#1: assert $childvar == "1"
 //@   ensures $spawned == old($spawned) && $fsops == old($fsops)
-//@   modifies heap, $childvar, $fsops, $minsize, $marked, $now, $weekend, $ledger, $lost, $invalidated
+//@   modifies heap, $childvar, $fsops, $minsize, $marked, $now, $weekend, $ledger, $lost, $invalidated, $sawClear, $didClear
 
 // parent: the mode consulted is the mode of the telemetry directory that is then
 // acted upon (the configured one, if any); with mode off nothing is started and nothing is written; otherwise
@@ -72,7 +72,7 @@ package telemetry
 //@   ensures $mode == "off" ==> $fsops == old($fsops) && $spawned == old($spawned)
 //@   ensures $spawned != old($spawned) ==> config.ReportCrashes || (config.Upload && $token)
 //@   ensures $spawned <= old($spawned)+1
-//@   modifies heap, telemetry.Default, "G:counter.rotating", "G:counter.defaultFile", $spawned, $fsops, $minsize, $token, $created, $age, $nenv, $now, $weekend, $ledger, $lost, $modeDir, $refreshed, $touched, $invalidated
+//@   modifies heap, telemetry.Default, "G:counter.rotating", "G:counter.defaultFile", $spawned, $fsops, $minsize, $token, $created, $age, $nenv, $now, $weekend, $ledger, $lost, $modeDir, $refreshed, $touched, $invalidated, $sawClear, $didClear
 
 // startChild: the new process carries GO_TELEMETRY_CHILD=1 as the entry after
 // the copied environment, and GO_TELEMETRY_CHILD_UPLOAD=1 after it exactly
@@ -99,7 +99,7 @@ package telemetry
 //@   at call Go#2: assert $marked
 //@   at call Exit#1: assert $spawned == old($spawned)
 //@   ensures false
-//@   modifies heap, $fsops, $minsize, $marked, $now, $weekend, $ledger, $lost, $invalidated
+//@   modifies heap, $fsops, $minsize, $marked, $now, $weekend, $ledger, $lost, $invalidated, $sawClear, $didClear
 
 // acquireUploadToken: the token is granted only to the process whose
 // exclusive create of the token file succeeded; an existing token is removed
